@@ -40,6 +40,17 @@ Theorem C01_put_then_get : forall nt w r key,
   snd (put nt w key) = true /\ get_finds (fst (put nt w key)) r key = true.
 Proof. exact put_then_get_via_first. Qed.
 
+(* put-then-get over whole histories: in every network reached from the first node through joins (each
+   given a responding node that is, or knows, the first node), lookups, puts, gets and crashes of any node
+   but the first, a put on any joined node returns Ok and a get started afterwards on any joined node
+   returns the value *)
+Theorem C01_put_then_get_every_history : forall evs w r key,
+  hist_ok (join [] true []) evs ->
+  let nt := fold_left nstep evs (join [] true []) in
+  0 < w < length nt -> 0 < r < length nt -> n_boots (get nt w) <> [] -> n_boots (get nt r) <> [] ->
+  snd (put nt w key) = true /\ get_finds (fst (put nt w key)) r key = true.
+Proof. exact put_then_get_history. Qed.
+
 (* non-vacuity: four nodes, a put on node 3, node 0 crashes, node 2 still finds it through node 1 *)
 Example C01_nonvacuous :
   let nt := join (join (join (join [] true []) true [0]) true [0]) true [0] in
@@ -61,4 +72,5 @@ Print Assumptions C01_put_keeps.
 Print Assumptions C01_get_finds_known_holder.
 Print Assumptions C01_get_finds_through_a_live_node.
 Print Assumptions C01_put_then_get.
+Print Assumptions C01_put_then_get_every_history.
 Print Assumptions C01_nonvacuous.
